@@ -91,6 +91,10 @@ def _check(pid, tier, seed, runs, budget, info, scratch, t0):
         print("KNOWN-FINDING: property=%s %s (%s; hit %d times this run)" % (pid, e.get("what", fid), fid, n))
     for k, n in sorted(notes.items()):
         print("NOTE %s count=%d" % (k, n))
+    p5_now = parallel_dispatchers() if pid == "C11" else []
+    if p5_now:
+        print("NOTE probe=P5 dispatchers compiled with parallel=True: %s - the Numba worker-thread clause of C11 is "
+              "not decidable by simulation; labelled real-thread differential follows" % p5_now)
     for u in unexpected:
         print("NOTE reference outcome differs from the catalogue's expectation: %s" % json.dumps(u)[:300])
     for v in viols:
@@ -207,7 +211,7 @@ def numba_thread_differential(pid, seed, cat, p5, info):
     res = []
     os.makedirs(replay_dir(), exist_ok=True)
     for v, pool in found:
-        e = next(x for x in cat["entries"] if x["id"] == v["entry"])
+        e = v.pop("_entry", None) or next(x for x in cat["entries"] if x["id"] == v["entry"])
         path = os.path.join(replay_dir(), "%s-s%d-numba-threads-e%d.json" % (pid, seed, v["entry"]))
         util.dump_file(path, {"property": pid, "engine": "numba_threads", "entry": e, "pool": pool,
                               "violation": v, "info": info,
@@ -273,9 +277,8 @@ def replay(path):
         cat = {"pool": rep["pool"], "entries": [rep["entry"]]}
 
         def job():
-            # the pool in the file is already enlarged: compare 1 thread against 2 and 16, 20 repetitions
-            realthreads.enlarge_entry = lambda c, e, target=None: c["pool"]
-            return realthreads.numba_threads_differential(cat, [rep["entry"]], reps=20)
+            # the entry and pool in the file are already enlarged: compare 1 thread against 2, 3, 4, 16
+            return realthreads.numba_threads_differential(cat, [rep["entry"]], reps=10, variants=False)
         val, err = worker_hist.in_child(job, 1800)
         if err:
             print("HARNESS-ERROR " + err[-1000:])
